@@ -33,7 +33,8 @@ const (
 
 var Kinds = []Kind{Bridge, L1Info, GER}
 
-// BlockKinds is the per-store alphabet of block contents.
+// BlockKinds is the per-store alphabet of block contents (NextAt also knows "bridge3" / "info3":
+// three leaves in one block, used by C07 only).
 var BlockKinds = map[Kind][]string{
 	Bridge: {"empty", "bridge", "bridge2", "claim", "tokenmap", "migrate", "rmlegacy", "bridge+claim", "same"},
 	L1Info: {"empty", "info", "info2", "verify", "v2", "init", "verify+info"},
@@ -303,6 +304,10 @@ func (c *Chain) NextAt(num uint64, kind string, salt int) aggsync.Block {
 		case "bridge2":
 			addBridge()
 			addBridge()
+		case "bridge3":
+			addBridge()
+			addBridge()
+			addBridge()
 		case "same":
 			// the same bridge transaction included again (e.g. re-included on a new fork, or simply an
 			// identical transfer): every hashed field is identical, only the deposit count differs
@@ -359,6 +364,10 @@ func (c *Chain) NextAt(num uint64, kind string, salt int) aggsync.Block {
 		case "info":
 			addInfo()
 		case "info2":
+			addInfo()
+			addInfo()
+		case "info3":
+			addInfo()
 			addInfo()
 			addInfo()
 		case "verify":
